@@ -87,7 +87,10 @@ CLAIMS.update({
         '(C03_dir_length_inv, via insert_le1 / remove_le0); path-table extents = 2*ceil(size/4096) after any add/remove sequence and the removal '
         'path never raises (C03_ptr_extents_inv, on the TRANSLATED add_to_ptr_size/remove_from_ptr_size/ceiling_div).  The packing model IS the source: '
         '_recalculate_extents_and_offsets is TRANSLATED on every run (object lists read/written attribute-wise) and C03_recalculate_is_the_model proves the '
-        'generated function equal to Pack.nf/nf_pos from any restart index with any stale cache.  Tie: translator validation run + Pack.v vs the real '
+        'generated function equal to Pack.nf/nf_pos from any restart index with any stale cache.  Model/PathTable.v (breadth-first directory numbering, '
+        'extents and the written path table of _reassign_vd_dirrecord_extents / _write_directory_records): for EVERY tree the numbers are 1..n in BFS order with correct parent '
+        'numbers, the table is sorted by (level, parent, identifier), extents are consecutive, and a reader rebuilds every path from the table alone (C03_path_table_*; the '
+        'ECMA padding order is refuted for identifiers with bytes below 0x20).  Tie: ptableleaf.py on the hierarchies of generated images; translator validation run + Pack.v vs the real '
         'method on an exhaustive small-block grid + insert/remove edits + positions decoded from real images (judged in Coq).  The property itself: '
         'every generated image (random histories + boundary recipes: block filled exactly, path table crossing 4 KiB with duplicate PVDs, ...) is '
         'decoded by an independent reader checking every listed ECMA-119 rule and compared with the API tree and contents of both the writing and a reopened object.'),
@@ -137,7 +140,7 @@ CLAIMS.update({
         'PathTableRecord.record_*_endian on every record of generated images plus extreme field values.  The whole-image fixpoint for every structure the '
         'library knows (Rock Ridge incl. version inference, Joliet, XA, El Torito, UDF, isohybrid MBR/GPT/APM) is evaluated directly: open+write twice, '
         'bytes compared except volume-modification dates, on every generated image incl. boundary recipes and SL-boundary symlinks.'),
-  note=('Rock Ridge / UDF / El Torito / hybrid parse-record pairs are NOT modelled in Coq; for them the fixpoint is sampled.  Trusted: Coq kernel + vm_compute, '
+  note=('Added model VolDesc.v (PVD / Joliet SVD / enhanced VD / terminator / boot record codecs, 17-byte dates, both-endian discipline, space counters): C05_vd_roundtrip (identity except the modification date that record() stamps), C05_vd_parse_rejects_altered_half; tied by vdleaf.py on the descriptor sectors of generated images. Rock Ridge / UDF / El Torito / hybrid parse-record pairs are NOT modelled in Coq; for them the fixpoint is sampled.  Trusted: Coq kernel + vm_compute, '
         'translator (FMT layouts), hand model tied by leaf run, pinned time.time.'),
   technique='Coq round-trip proofs for record codecs over translated layouts + byte-level leaf run + open/write fixpoint on generated images',
   design='§8.5'),
@@ -149,7 +152,7 @@ CLAIMS.update({
         'preserves the counts of non-empty contents.  Tie on every run: the data space held by the object after EVERY edit (sum over PyCdlib.inodes) equals the '
         'space of the distinct live blobs of the specification evaluated in Coq; API views after write+reopen (1-3 generations) equal the specification; data '
         'extents in the image shared iff linked.  Recipes: same-named links in different directories, boot file names removed after reopen.'),
-  note=('The theorems are about the specification; pycdlib is tied by the per-edit probe and the view comparison (sampling).  Zero-length contents hold no space and lose '
+  note=('Added model AccountLinks.v (the space accounting state machine with hard links inside the ISO9660 namespace: shared inodes, add_hard_link / rm_hard_link / rm_file): C07_space_exact, C07_stored_once, C07_content_released_at_last_name_in_the_accounting, C07_rm_file_exact_in_the_accounting for EVERY history; tied by accountlinksleaf.py after every operation. The theorems are about the specification; pycdlib is tied by the per-edit probe and the view comparison (sampling).  Zero-length contents hold no space and lose '
         'cross-namespace link identity when reopened (stated in FsSpec.Reopen).'),
   technique='Coq reference-count theorems on the specification + per-edit data-space probe and view correspondence evaluated in Coq',
   design='§8.7'),
@@ -161,7 +164,7 @@ CLAIMS.update({
         'models vs the real methods on every run (targets around every record/component boundary).  The property itself on generated Rock Ridge images (1.09/1.10/1.12 x XA, long '
         'names, CE gaps of exactly the needed size +-1, trees deeper than 8): an independent SUSP/RRIP reader recovers names, types, PX mode types, link counts, targets, the logical '
         'tree; entry lengths, CE/CL/PL pointers.'),
-  note=('Added models: Nlink.v (directory link counts: 2 + #subdirs on the record, its dot and the children\'s dotdot after EVERY add/rm_directory history incl. refused edits, C08_nlink; depth <= 7, no relocation) and RREntries.v/RRWalk.v (every System Use entry codec, the walker and the recorder: entry round trips, self-describing lengths, C08_area_walk for any entry list; the two known symlink findings as _refuted theorems); tied by nlinkleaf.py (PX counts of the record objects) and rrleaf.py (System Use areas of generated images).  Relocation (CL/PL/RE), link counts under relocation and _assign_entries placement are decided on sampled images by the reader, not by theorems. Link counts are not compared on images with a relocated directory.'),
+  note=('Added model RRPlace.v (which System Use entries RockRidge.new creates and where: record vs continuation area; C08_placement_fits_the_record, C08_ce_entry_length_is_the_area, C08_placed_name_reads_back, C08_no_continuation_iff_first_fit, C08_placement_total for ALL inputs; tied by rrplaceleaf.py on a boundary grid).  Added models: Nlink.v (directory link counts: 2 + #subdirs on the record, its dot and the children\'s dotdot after EVERY add/rm_directory history incl. refused edits, C08_nlink; depth <= 7, no relocation) and RREntries.v/RRWalk.v (every System Use entry codec, the walker and the recorder: entry round trips, self-describing lengths, C08_area_walk for any entry list; the two known symlink findings as _refuted theorems); tied by nlinkleaf.py (PX counts of the record objects) and rrleaf.py (System Use areas of generated images).  Relocation (CL/PL/RE), link counts under relocation and _assign_entries placement are decided on sampled images by the reader, not by theorems. Link counts are not compared on images with a relocated directory.'),
   technique='Coq round-trip proofs for NM/SL splitting and CE allocator invariant + leaf runs + independent SUSP/RRIP reader on generated images',
   design='§8.8'),
  'C09': dict(category='proof',
@@ -178,7 +181,7 @@ CLAIMS.update({
         'Everything else is decided on generated UDF images (fresh and reopened-then-edited; identifier areas ending exactly on a sector boundary; Latin-1/UCS-2 names; non-Latin-1 symlink components; '
         'cross-namespace links; empty files) by an independent ECMA-167 reader that starts from the recognition sequence and the anchors, verifies every tag it passes, partition bounds and information '
         'lengths, and must recover exactly the tree, names, targets and bytes.'),
-  note='partial: Model/Udf.v covers tag, short/long AD, ICB tag, FID and File Entry (+ splitting into allocation descriptors): recorded descriptors verify for an independent checker, parse.record = id, extents sum to the length and chain; tied by udfleaf.py incl. descriptors cut out of written images.  Partition/anchor/integrity accounting and the volume descriptor sequence classes are NOT modelled in Coq; they are checked by the reader on sampled images only.',
+  note='partial: Model/UdfVds.v (recognition sequence, anchors, volume descriptor sequence, integrity, file set: every descriptor verifies and round-trips, sizes and counters stay in step) and Model/UdfDir.v (one directory under adds/removals: information length, blocks granted, Logical Blocks Recorded, placement) were added, tied by vdleaf.py / udfdirleaf.py; Model/Udf.v covers tag, short/long AD, ICB tag, FID and File Entry (+ splitting into allocation descriptors): recorded descriptors verify for an independent checker, parse.record = id, extents sum to the length and chain; tied by udfleaf.py incl. descriptors cut out of written images.  Partition/anchor/integrity accounting and the volume descriptor sequence classes are NOT modelled in Coq; they are checked by the reader on sampled images only.',
   technique='Coq proofs over translated CRC/checksum/length functions + independent ECMA-167 reader on generated images',
   design='§8.10'),
  'C11': dict(category='proof',
